@@ -396,6 +396,62 @@ def diag_job(case, acc: Acc):
         acc.sample({"case": list(case), "text": text})
 
 
+# ------------------------------------------------ diagnostics that point into other files
+# A diagnostic (and its relatedInformation) names a place in a document: the file must be the one the line number
+# belongs to.  Short files next to long ones, so that a line number taken from the wrong file falls outside.
+PAD = "".join(f"! filler line {i}\n" for i in range(30))
+CROSS = {
+    "masks_used_module": {
+        "defs.f90": "module xdefs\n  implicit none\n" + PAD + "  integer :: counter\nend module xdefs\n",
+        "user.f90": "module xuser\n  use xdefs\n  implicit none\ncontains\n  subroutine s()\n    integer :: counter\n    counter = 1\n  end subroutine s\nend module xuser\n",
+    },
+    "twice_in_include": {
+        "main.f90": "program xmain\n  implicit none\n  include 'xinc.f90'\nend program xmain\n",
+        "xinc.f90": PAD + "  integer :: a\n  real :: b\n  integer :: a\n",
+    },
+    "masks_from_include": {
+        "host.f90": "module xhost\n  implicit none\n  include 'xdecl.f90'\ncontains\n  subroutine s()\n    integer :: from_inc\n    from_inc = 1\n  end subroutine s\nend module xhost\n",
+        "xdecl.f90": PAD + "  integer :: from_inc\n",
+    },
+    "twice_across_submodule": {
+        "par.f90": "module xpar\n  implicit none\n" + PAD + "  integer :: shared\n  interface\n    module subroutine ms()\n    end subroutine ms\n  end interface\nend module xpar\n",
+        "sub.f90": "submodule (xpar) xsub\n  implicit none\ncontains\n  module subroutine ms()\n    integer :: shared\n    shared = 1\n  end subroutine ms\nend submodule xsub\n",
+    },
+}
+
+
+def cross_job(name, acc: Acc):
+    files = CROSS[name]
+    sc = worker_scratch("c09x")
+    sc.wipe()
+    root = os.path.join(sc.path, "ws")
+    os.makedirs(root)
+    for n, t in files.items():
+        with open(os.path.join(root, n), "w") as fh:
+            fh.write(t)
+    clear_caches()
+    s = server_on(root, [])
+
+    def view(uri):
+        from fortls.jsonrpc import path_from_uri
+
+        p = path_from_uri(uri) if uri.startswith("file://") else uri
+        n = os.path.basename(p)
+        return files[n].split("\n") if n in files and os.path.dirname(os.path.realpath(p)) == os.path.realpath(root) else None
+
+    ndiag = 0
+    for n in sorted(files):
+        path = os.path.join(root, n)
+        for o in s.open(path) + s.save(path):
+            if o.get("method") == "textDocument/publishDiagnostics":
+                ndiag += len(o["params"]["diagnostics"])
+                check_result(s, "diag_cross_file", "publishDiagnostics", o["params"]["diagnostics"], o["params"]["uri"],
+                             {"workspace": name, "file": n, "method": "publishDiagnostics"}, acc, {"workspace": name}, view=view)
+    acc.case(nontrivial_key=name if ndiag else None, outcome=(name, ndiag))
+    if len(acc.samples) < 1:
+        acc.sample({"workspace": name, "files": {k: v[-120:] for k, v in files.items()}})
+
+
 # --------------------------------------------------------------------- sync
 # Ranges must address the document the *client* holds: the synchronised text of an open document, the file of a
 # closed one.  Histories of didOpen / ranged didChange / didSave / didClose on two small files, then every
@@ -554,6 +610,8 @@ def main(ctx):
     ctx.add_family("fragments", facc)
     dacc = core.pmap(diag_job, list(diag_cases()), chunk=2, budget_s=120, label="C09/diag")
     ctx.add_family("diag_continuation", dacc, templates=len(DIAG_TEMPLATES))
+    xacc = core.pmap(cross_job, sorted(CROSS), chunk=1, budget_s=120, label="C09/cross")
+    ctx.add_family("diag_cross_file", xacc, workspaces=len(CROSS))
     depth = 3 if q else 4
     hs = sync_histories(depth)
     sacc = core.pmap(sync_job, hs, chunk=4, budget_s=900, label="C09/sync")
@@ -585,6 +643,9 @@ def replay(rec):
         frags = [f for f in c03.FRAGMENTS if not f.startswith("#")] + FRAGMENT_EXTRA
         fragment_job((frags.index(c["fragment"]), c["fragment"], c["shape"]), acc)
         return [v.to_json("C09") for v in acc.violations if (v.case.get("method"), v.case.get("character")) == (c.get("method"), c.get("character"))] or None
+    elif fam == "diag_cross_file":
+        cross_job(c["workspace"], acc)
+        return [v.to_json("C09") for v in acc.violations] or None
     elif fam == "diag_continuation":
         diag_job(tuple(c["case"]), acc)
         return [v.to_json("C09") for v in acc.violations] or None
